@@ -158,7 +158,45 @@ def t_aggregation():
     return net, x, [a, b], [x, a, b], 1e-9
 
 
+class TableInputs:
+    """design signal whose k-th design comes from an explicit table"""
+    def __init__(self, sig, table):
+        self.sig, self.table = sig, [np.array(t, dtype=float) for t in table]
+
+    def set(self, k):
+        self.sig.state = self.table[k].copy()
+
+
+def t_stored_zeros_linsolve():
+    """a user-defined assembly with a FIXED stored sparsity pattern (explicit zeros, as AssembleGeneral stores them) feeding
+    LinSolve: which dofs are decoupled - and divided out by the LDAS wrapper - changes from design to design while the
+    stored structure stays the same"""
+    import pymoto as pym
+    n = 5
+    rows = np.array([i for i in range(n)] + [i for i in range(n - 1)] + [i + 1 for i in range(n - 1)])
+    cols = np.array([i for i in range(n)] + [i + 1 for i in range(n - 1)] + [i for i in range(n - 1)])
+    table = [[0.0, 0.0, 0.5, 0.7], [0.4, 0.3, 0.0, 0.0], [0.6, 0.0, 0.2, 0.9]]
+
+    class Chain(pym.Module):
+        def _response(self, x):
+            vals = np.concatenate([2.0 + 0.1 * np.arange(n), -x, -x])
+            return sps.csc_matrix((vals, (rows, cols)), shape=(n, n))
+
+        def _sensitivity(self, dA):
+            d = dA.todense() if hasattr(dA, "todense") else np.asarray(dA)
+            d = np.asarray(d)
+            return -np.array([d[k, k + 1] + d[k + 1, k] for k in range(n - 1)])
+    x = pym.Signal("x", np.array(table[0]))
+    net = pym.Network()
+    A = net.append(Chain(x))
+    b = pym.Signal("b", np.array([1.0, -2.0, 0.5, 3.0, 1.5]))
+    u = net.append(pym.LinSolve([A, b]))
+    c = net.append(pym.EinSum([u, b], expression="i,i->"))
+    return net, TableInputs(x, table), [c, u], [x, A, u, c], 1e-9
+
+
 TEMPLATES = {
+    "user assembly with stored zeros+LinSolve(direct,LDAS)": t_stored_zeros_linsolve,
     "filter+stiffness+LinSolve(direct,LDAS)": t_linsolve_direct,
     "filterconv+stiffness+LinSolve(CG+multigrid,2rhs)": t_linsolve_multirhs_cg_mg,
     "stiffness+SystemOfEquations": t_system_of_equations,
@@ -225,7 +263,7 @@ def template(tname):
 
 
 def set_input(tname, x, k):
-    if isinstance(x, GenericInputs):
+    if isinstance(x, (GenericInputs, TableInputs)):
         x.set(k)
     else:
         x.state = designs(x.state.size, k) + (0.5 if "PNorm" in tname else 0.0)
